@@ -126,6 +126,7 @@ fn hole_occurrences(m: &M, depth: usize, out: &mut Vec<(usize, usize, usize)>) {
 // One unification problem: two mirror terms that may share hole cells (by id).
 pub fn check_pair(a: &M, b: &M, describe: &dyn Fn() -> String) {
     count!("unify_calls");
+    count!("evaluations");
     let mut cells: Cells = HashMap::new();
     let (ra, rb) = (to_real(a, &mut cells), to_real(b, &mut cells));
     let copies_before = crate::verif_hooks::hole_copies();
@@ -218,7 +219,7 @@ fn punch_sweep(tier: Tier) -> Sweep {
         ts.len() as u64,
         move |idx| {
             let (text, inst) = &ts[idx as usize];
-            count!("evaluations");
+            count!("instances");
             // While F-HOLE-COPY is a known finding, holed patterns over recursive definitions are not
             // run: unfolding copies the hole at every round and unify does not terminate (each such
             // case would be attributed to the finding after a watchdog expiry).
@@ -308,7 +309,7 @@ fn pairs_sweep(tier: Tier) -> Sweep {
         move |idx| {
             let (ta, a) = &ts[(idx / n) as usize];
             let (tb, b) = &ts[(idx % n) as usize];
-            count!("evaluations");
+            count!("term_pairs");
             let d = |pa: &M, pb: &M| format!("unify of {}  and  {}   (from {ta} and {tb})", pa.show(), pb.show());
             // hole-free
             check_pair(a, b, &|| d(a, b));
@@ -354,7 +355,7 @@ impl Prop for C12 {
     fn evidence(&self, tier: Tier) -> EvidenceSpec {
         EvidenceSpec {
             level: "exploration",
-            rule: "instances = every closed type-directed term up to the size bound; patterns = the instance with a hole punched at every position with every shift 0..binder depth (both argument orders), and with two holes (distinct cells and the same cell twice) at every pair of the first 9 positions; every ordered pair of the N smallest terms, hole-free and with a hole punched at each of the first 6 positions of either (shift 0 and shift = depth: scope-escape configurations), and the same cell on both sides (occurs-check configurations); the same under contexts with parameters and definitions (see C18). Whenever the real unify returns true: following the recorded solutions must terminate, every solution's free variables must lie below (depth - shift) of every occurrence of its hole, the two terms with solutions filled in must be convertible in the reference, and the definitions context must be as before. `false` is never a violation on a holed pair. non-trivial = successful unifications confirmed consistent".to_owned(),
+            rule: "instances = every closed type-directed term up to the size bound; patterns = the instance with a hole punched at every position with every shift 0..binder depth (both argument orders), and with two holes (distinct cells and the same cell twice) at every pair of the first 9 positions; every ordered pair of the N smallest terms, hole-free and with a hole punched at each of the first 6 positions of either (shift 0 and shift = depth: scope-escape configurations), and the same cell on both sides (occurs-check configurations); the same under contexts with parameters and definitions (see C18). Whenever the real unify returns true: following the recorded solutions must terminate, every solution's free variables must lie below (depth - shift) of every occurrence of its hole, the two terms with solutions filled in must be convertible in the reference, and the definitions context must be as before. `false` is never a violation on a holed pair. evaluations = unification problems; non-trivial = successful unifications confirmed consistent".to_owned(),
             assumptions: vec![
                 "reference conversion (NbE with fuel); Unknown is skipped".to_owned(),
                 "inconsistent successes during which hook H2 counted a hole copy are instances of the known finding F-HOLE-COPY".to_owned(),
